@@ -23,7 +23,10 @@ func TestMain(m *testing.M) {
 			"collection; then X is rebuilt in another fresh child process (new address space, new map seeds) under a generated package load order "+
 			"(a permutation imposed through gates in the BUILD files, or free-running). Oracle: the rebuild executes no body and reports no "+
 			"TargetEvaluating for any target or source of X's closure; when nothing was edited at all, no target of the project is evaluated. "+
-			"Non-trivial = >=1 no-op-class operation was applied and the closure has >=3 targets over >=2 packages or uses a helper module. "+
+			"A second check applies the rule to every build of arbitrary C01-style histories: a target may execute only if it, or something in "+
+			"its closure, was never built, had an input change since its last successful execution, failed last time, is 'always', or shares its BUILD "+
+			"file with a semantically edited statement. Non-trivial = >=1 no-op-class operation was applied and the closure has >=3 targets over >=2 "+
+			"packages or uses a helper module (history check: >=2 builds judged). "+
 			"Distinct by case JSON.",
 		"same-file edits of other targets are not in the no-op class (they may legitimately shift bytecode indices)",
 	)
